@@ -269,6 +269,47 @@ inline Mat make_data(const Case& c)
             step *= grow;
         }
     }
+    else if (kind == "srcfirst")
+    {
+        // a Gaussian bulk whose *first* sample is an outlier: it has its neighbours in the bulk but is nobody's neighbour,
+        // so the directed k-NN graph is not strongly connected although sample 0 reaches every sample
+        for (int j = 0; j < N; ++j)
+            for (int i = 0; i < D; ++i)
+                X(i, j) = g.gauss();
+        // the closest position along a random direction at which the outlier is beyond the k-th neighbour distance of every
+        // bulk sample; the data are then rescaled so that the outlier's nearest sample is at distance 1 (heat-kernel weights
+        // of the usual widths stay far from underflow: a numerically disconnected graph has no well-defined embedding)
+        int k = (int)std::min<long>(c.i("k", 5), N - 2);
+        std::vector<double> dk(N, 0.0);
+        double r = 0;
+        for (int j = 1; j < N; ++j)
+        {
+            std::vector<double> d;
+            for (int l = 1; l < N; ++l)
+                if (l != j)
+                    d.push_back((X.col(j) - X.col(l)).norm());
+            std::sort(d.begin(), d.end());
+            dk[j] = d[std::min<int>(k - 1, (int)d.size() - 1)];
+            r = std::max(r, X.col(j).norm());
+        }
+        Vec dir(D);
+        for (int i = 0; i < D; ++i)
+            dir(i) = g.gauss();
+        dir /= dir.norm();
+        for (double R = r;; R *= 1.05)
+        {
+            X.col(0) = dir * R;
+            bool ok = true;
+            for (int j = 1; j < N && ok; ++j)
+                ok = (X.col(0) - X.col(j)).norm() > 1.05 * dk[j];
+            if (ok)
+                break;
+        }
+        double nearest = 1e300;
+        for (int j = 1; j < N; ++j)
+            nearest = std::min(nearest, (X.col(0) - X.col(j)).norm());
+        X /= nearest;
+    }
     else
     {
         fprintf(stderr, "unknown data kind %s\n", kind.c_str());
